@@ -679,3 +679,79 @@ Example drops_err_copy_unbounded :
               refl_struct_ignores_err := false; refl_neg_len_panics := false |} in
   sig_copied c (TList (TS SStr)) [xe8; x03; x00; x00] = 8004 /\ sig_nest c (TList (TS SStr)) [xe8; x03; x00; x00] = 2.
 Proof. vm_compute. repeat split. Qed.
+
+(* ================= 2. recursion depth of the signature parser ================= *)
+From Coq Require Import String Ascii.
+From QV Require Import Peg PegProofs SigParse SigParseProofs SigParseMerged.
+Local Open Scope string_scope.
+Local Open Scope nat_scope.
+
+(* ---------- 2b. attained: n opening square brackets need more than n entries ---------- *)
+Lemma basic_type_bracket : forall x, fst (basic_type (String "[" x)) = Fail.
+Proof. intro x. reflexivity. Qed.
+Lemma map_type_bracket : forall d x, fst (map_type d (String "[" x)) = Fail.
+Proof. intros d x. reflexivity. Qed.
+
+Lemma decl_m_brackets : forall f n rest, f <= n -> fst (decl_m f (brackets n ++ rest)) = NoFuel.
+Proof.
+  induction f as [|f IH]; intros n rest Hn; [reflexivity|].
+  destruct n as [|n]; [lia|]. cbn [brackets append].
+  rewrite decl_m_S, por_fst_cons, basic_type_bracket, por_fst_cons, map_type_bracket, por_fst_cons.
+  unfold array_type at 1. rewrite pand_fst, and_loop_fst_cons.
+  change (fst (@atom ty "[" (String "[" (brackets n ++ rest)))) with (@Ok (node ty) (NTerm "[") (brackets n ++ rest)).
+  cbv beta iota. rewrite and_loop_fst_cons, (IH n rest) by lia. reflexivity.
+Qed.
+
+Lemma least_from_ge : forall k d s, d <= least_from k d s.
+Proof.
+  induction k as [|k IH]; intros d s; cbn [least_from]; [lia|].
+  destruct (parse_within d s); [lia|]. specialize (IH (S d) s). lia.
+Qed.
+
+(* below the answer nothing is enough; the answer is enough when the search found one *)
+Lemma least_from_spec : forall k d s,
+  (forall e, d <= e < least_from k d s -> parse_within e s = false) /\
+  (least_from k d s < d + k -> parse_within (least_from k d s) s = true).
+Proof.
+  induction k as [|k IH]; intros d s; cbn [least_from].
+  - split; intros; lia.
+  - destruct (parse_within d s) eqn:E.
+    + split; [intros e He; lia|intros _; exact E].
+    + destruct (IH (S d) s) as [IH1 IH2]. split.
+      * intros e He. destruct (Nat.eq_dec e d) as [->|Hne]; [exact E|]. apply IH1. lia.
+      * intro Hlt. apply IH2. lia.
+Qed.
+
+Lemma parse_depth_gt : forall s d, (forall e, e <= d -> parse_within e s = false) -> d <= String.length s ->
+  d < parse_depth s.
+Proof.
+  intros s d Hall Hd. unfold parse_depth.
+  destruct (least_from_spec (S (String.length s)) 0 s) as [_ H2].
+  destruct (Nat.lt_ge_cases d (least_from (S (String.length s)) 0 s)) as [Hlt|Hge]; [exact Hlt|].
+  rewrite (Hall _ Hge) in H2. assert (Hf : false = true) by (apply H2; lia). discriminate Hf.
+Qed.
+
+Lemma parse_depth_le : forall s d, parse_within d s = true -> parse_depth s <= d.
+Proof.
+  intros s d Hd. unfold parse_depth.
+  destruct (least_from_spec (S (String.length s)) 0 s) as [H1 _].
+  destruct (Nat.lt_ge_cases d (least_from (S (String.length s)) 0 s)) as [Hlt|Hge]; [|exact Hge].
+  rewrite (H1 d) in Hd by lia. discriminate Hd.
+Qed.
+
+Lemma brackets_length : forall n, String.length (brackets n) = n.
+Proof. induction n as [|n IH]; cbn [brackets String.length]; [reflexivity|now rewrite IH]. Qed.
+
+(* ATTAINED: the text of n opening square brackets (which Parse refuses) and the signature of n lists
+   around an int32 (which it accepts) both make the type rule enter itself more than n times *)
+Theorem parse_depth_brackets : forall n, n < parse_depth (brackets n).
+Proof.
+  intro n. apply parse_depth_gt; [|rewrite brackets_length; lia].
+  intros e He. unfold parse_within. rewrite <- (sapp_nil_r (brackets n)), decl_m_brackets by exact He. reflexivity.
+Qed.
+Theorem parse_depth_nested_list : forall n, n < parse_depth (nested_list n).
+Proof.
+  intro n. apply parse_depth_gt.
+  - intros e He. unfold parse_within, nested_list. rewrite decl_m_brackets by exact He. reflexivity.
+  - unfold nested_list. rewrite slen_app, brackets_length. lia.
+Qed.
